@@ -1732,6 +1732,22 @@ func privateAlloc(a *ssa.Alloc) bool {
 				if x.X != v || !ok(x, depth+1) {
 					return false
 				}
+			case *ssa.Return:
+				// handed to the caller only when this activation ends: no callee of this activation ever sees it
+				if depth != 0 {
+					return false
+				}
+			case *ssa.MakeInterface:
+				if depth != 0 || x.Referrers() == nil {
+					return false
+				}
+				for _, r2 := range *x.Referrers() {
+					switch r2.(type) {
+					case *ssa.Return, *ssa.DebugRef:
+					default:
+						return false
+					}
+				}
 			default:
 				return false
 			}
@@ -2072,6 +2088,9 @@ func (ex *Exec) havocAllKeepWith(h *Heap, guard Term, setup func(nh *Heap), loop
 				}
 				continue
 			}
+			if e == ex && len(loop) > 0 && loop[0] != nil && allocWrittenIn(a, loop[0]) {
+				continue // the loop body itself stores into the object: havoced with the loop
+			}
 			et := a.Type().(*types.Pointer).Elem()
 			func() {
 				defer func() { recover() }()
@@ -2080,6 +2099,37 @@ func (ex *Exec) havocAllKeepWith(h *Heap, guard Term, setup func(nh *Heap), loop
 		}
 	}
 	return nh
+}
+
+// allocWrittenIn: some instruction of the loop body stores into the object (through a field or element address).
+func allocWrittenIn(a *ssa.Alloc, l *Loop) bool {
+	var w func(v ssa.Value, depth int) bool
+	w = func(v ssa.Value, depth int) bool {
+		if depth > 6 || v.Referrers() == nil {
+			return false
+		}
+		for _, r := range *v.Referrers() {
+			switch x := r.(type) {
+			case *ssa.Store:
+				if x.Addr == v && l.body[x.Block()] {
+					return true
+				}
+			case *ssa.FieldAddr:
+				if w(x, depth+1) {
+					return true
+				}
+			case *ssa.IndexAddr:
+				if w(x, depth+1) {
+					return true
+				}
+			}
+		}
+		return false
+	}
+	if l.body[a.Block()] {
+		return true // allocated inside the loop: a different object in every iteration
+	}
+	return w(a, 0)
 }
 
 // copyObject copies the memory content of the object of type t at ref from heap src to heap dst.
